@@ -98,6 +98,19 @@ RESET_EXEMPT = {
     ("_PyEngineState", "memories"): "registry of slots (configuration, filled lazily); every slot is reset individually",
 }
 
+RESET_PERSISTS = {
+    ("_PySignalState", "wakers"): "wakers registered by the compiler when the design was built are not registered again after reset()",
+    ("_PyMemoryState", "wakers"): "wakers registered by the compiler when the design was built are not registered again after reset()",
+    ("_PySignalState", "is_comb"): "set once by the compiler",
+    ("PyRTLProcess", "run"): "the compiled function, set once by the compiler",
+    ("PyRTLProcess", "is_comb"): "set once by the compiler",
+    ("PySimEngine", "_processes"): "the process set is configuration",
+    ("PySimEngine", "_testbenches"): "the testbench list is configuration",
+    ("_PyEngineState", "signals"): "registry of slots: compiled code refers to slots by index",
+    ("_PyEngineState", "slots"): "registry of slots: compiled code refers to slots by index",
+    ("_PyEngineState", "memories"): "registry of slots: compiled code refers to slots by index",
+}
+
 
 def tasks(tier):
     return [("ordered-source", m) for m in MODULES] + [("reset-frame",), ("build-plan",), ("hash-seed",), ("reset-rerun",)]
@@ -333,6 +346,16 @@ def check_reset_frame():
             obs.append({"name": f"reset-frame::{cname}.{attr}", "kind": "post", "status": "proved" if ok else "refuted", "backend": "rule",
                         "time_s": 0.0, "detail": detail,
                         **({} if ok else {"failing_input_hint": {"class": cname, "attribute": attr, "mutated_in": sorted(set(where))}})})
+        # the dual: what is configuration (registrations made when the design was compiled, the process set, the compiled code)
+        # must SURVIVE reset() -- reset() neither rebinds nor mutates it
+        for (c2, attr), why in sorted(RESET_PERSISTS.items()):
+            if c2 != cname:
+                continue
+            touched = attr in rst
+            obs.append({"name": f"reset-frame::{cname}.{attr}::survives-reset", "kind": "post", "status": "refuted" if touched else "proved",
+                        "backend": "rule", "time_s": 0.0, "detail": why,
+                        **({"failing_input_hint": {"class": cname, "attribute": attr, "reset() does": [r if isinstance(r, str) else repr(r) for r in rst[attr]],
+                                                   "why it must survive": why}} if touched else {})})
         obs.append({"name": f"reset-frame::{cname}::scanned", "kind": "post", "status": "proved", "backend": "rule", "time_s": 0.0,
                     "detail": f"{len(mutated)} mutated attributes"})
     return {"task": "reset-frame", "paths": 0, "solver_s": 0.0, "obligations": obs}
@@ -605,9 +628,11 @@ def check_reset_rerun():
     mirror = Signal(4)
     mem = Memory(shape=4, depth=2, init=[5, 6])
     wp = mem.write_port()
+    rp = mem.read_port(domain="comb")          # address held at 0: its output follows the row only through the memory's wakers
+    rp1 = mem.read_port(domain="comb")
     m.submodules.mem = mem
     m.d.sync += ctr.eq(ctr + 1)
-    m.d.comb += [wp.addr.eq(ctr[0]), wp.data.eq(ctr), wp.en.eq(ctr[1])]
+    m.d.comb += [wp.addr.eq(ctr[0]), wp.data.eq(ctr), wp.en.eq(ctr[1]), rp1.addr.eq(1)]
     sim = Simulator(m)
     sim.add_clock(Period(MHz=1))
     trace = []
@@ -618,7 +643,7 @@ def check_reset_rerun():
 
     async def tb(ctx):
         for k in range(6):
-            trace.append((k, ctx.get(ctr), ctx.get(mirror), ctx.get(mem.data[0]), ctx.get(mem.data[1])))
+            trace.append((k, ctx.get(ctr), ctx.get(mirror), ctx.get(mem.data[0]), ctx.get(mem.data[1]), ctx.get(rp.data), ctx.get(rp1.data)))
             ctx.set(inp, k + 7)
             await ctx.tick()
     sim.add_process(proc)
@@ -630,7 +655,7 @@ def check_reset_rerun():
     fresh = {"ctr": None}
     sim.run()
     second = list(trace)
-    ok = first == second and len(first) == 6
+    ok = first == second and len(first) == 6 and all(t[3] == t[5] and t[4] == t[6] for t in first + second)
     obs = []
     if not ok:
         obs.append({"name": "reset-rerun::identical-trace", "kind": "bounded", "status": "refuted", "backend": "cpython", "time_s": 0.0,
